@@ -207,6 +207,22 @@ class IOOpsMixin:
         rows = present.get("rows")
         if rows:
             df = df.iloc[rows].reset_index(drop=True)
+        idx = present.get("index")
+        if idx == "shift":
+            df.index = range(7, 7 + len(df))                     # e.g. a row subset of a larger table that kept its labels
+        elif idx == "volumes":
+            df.index = [float(v) for v in st["volumes"]][: len(df)]   # indexed by volume
+        elif idx == "labels":
+            df.index = ["V%d" % k for k in range(len(df))]
+        elif idx == "reversed":
+            df.index = list(range(len(df)))[::-1]                # rows sorted the other way round, labels kept
+        off = present.get("offset")
+        if off:
+            # a user relation with a constant term: column a is (re)defined as column b + d, so that the table obeys  a = b + d
+            a, b, d = off
+            names_l = {str(c).lower(): c for c in df.columns}
+            if "c" + a in names_l and "c" + b in names_l:
+                df[names_l["c" + a]] = df[names_l["c" + b]].to_numpy(dtype=float) + float(d)
         return df
 
     @staticmethod
@@ -291,6 +307,18 @@ class IOOpsMixin:
             self.probe("fill_ignore_flag_" + op["must_not_refuse"])
         self._fill_results[(client, i)] = outcome
         self._fill_compare(client, i, op, outcome, inputs)
+        off = present.get("offset")
+        if off and "O-env" in self.oracles:
+            a, b, d = off
+            got = outcome[1]
+            if "c" + a in got and "c" + b in got:
+                dev = float(numpy.max(numpy.abs(got["c" + a] - got["c" + b] - float(d))))
+                if dev > 1e-6:
+                    self.verdict("O-env", "C09", client, i, f"user-written relations with a constant term (c{a} = c{b} + {d}): the filled table violates it by {dev:.3e}")
+                else:
+                    self.probe("fill_offset_relation_checked")
+            else:
+                self.verdict("O-env", "C09", client, i, f"user-written relations with a constant term (c{a} = c{b} + {d}): c{a} or c{b} is missing from the filled table")
         cols = outcome[2]
         dig = [[c, S_sha(numpy.ascontiguousarray(res[c].to_numpy().astype(float)).tobytes())] for c in res.columns]
         return {"table": dig}
@@ -326,6 +354,10 @@ class IOOpsMixin:
             return
         if outcome[0] == "ok":
             a, b = base[1], outcome[1]
+            if op.get("modulus_only"):
+                import re as _re
+                a = {k: v for k, v in a.items() if _re.fullmatch(r"c\d\d", k)}
+                b = {k: v for k, v in b.items() if _re.fullmatch(r"c\d\d", k)}
             if sorted(a) != sorted(b):
                 self.verdict("O-env", "C09", client, i, f"fill result columns depend on presentation ({what}): {sorted(a)} versus {sorted(b)}")
                 return
